@@ -38,10 +38,13 @@ def plan(tier, seed):
     n = 0
     from vtk.alphabet import crystals as X
 
-    for name in XT:
+    xts = XT if tier == "quick" else XT + ["trig-P3-4", "rutile-6", "mono-Pc-2", "tri-P1-2", "hcp-2", "NaCl-conv-8-interleaved"]
+    if tier != "quick":
+        Ss += [[[1, 0, 1], [0, 2, 0], [-1, 0, 1]], [[1, 1, 1], [0, 2, 0], [0, 0, 2]], [[-1, 1, 1], [1, -1, 1], [1, 1, -1]]]
+    for name in xts:
         nat = len(X.by_name()[name]["symbols"])
         for S in Ss:
-            if abs(RL.det3(S)) * nat > 32:
+            if abs(RL.det3(S)) * nat > (32 if tier == "quick" else 48):
                 continue
             g = []
             # born varies fastest: consecutive cases re-set nac_params with the same method on the same object (a history)
@@ -51,7 +54,7 @@ def plan(tier, seed):
                 g.append({"xtal": name, "S": S, "born": born, "layout": layout, "method": method, "factor": f})
                 n += 1
             groups.append(g)
-    meta = {"alphabet": {"crystals": XT, "S": len(Ss), "born": 3, "layout": 2, "method": 2, "factors": factors, "directions": len(DIRS), "lengths": LENGTHS, "cases": n},
+    meta = {"alphabet": {"crystals": xts, "S": len(Ss), "born": 3, "layout": 2, "method": 2, "factors": factors, "directions": len(DIRS), "lengths": LENGTHS, "cases": n},
             "bound": "complete product (quick: non-default factors only with random Born/full layout)", "exhaustive": True,
             "not_covered": ["Gonze-Lee with_full_terms=True (needs scipy)", "q+G representatives other than the shortest ones for Gonze-Lee (periodicity is not claimed)"]}
     return groups, meta
